@@ -56,6 +56,8 @@ def integrator_contracts(R, reg, src, prop):
     for implicit, adaptive in ((False, False), (False, True), (True, False), (True, True)):
         for kk in sorted(keep.get(implicit, {None}), key=lambda x: sorted(x) if x else []):
             R.under_contract(intcall.check_rk_call(reg, src, prop, implicit, adaptive, keep=kk))
+            # the same clauses for every retry budget: the retry loop cut by an invariant instead of unrolled
+            R.under_contract(intcall.check_rk_call_unbounded(reg, src, prop, implicit, adaptive, keep=kk))
     R.under_contract(intcall.check_symplectic_call(reg, src, prop))
     R.under_contract(intcall.check_richardson_call(reg, src, prop))
 
